@@ -236,7 +236,15 @@ def fl3(x):
 
 
 def observe(x):
-    """project a library value to plain data (no library objects inside)"""
+    """project a library value to plain data (no library objects inside); a value whose attributes cannot even be read
+    (e.g. a Line whose support vector is None) is reported as Malformed: it matches no expected value"""
+    try:
+        return _observe(x)
+    except (TypeError, AttributeError, IndexError, ValueError, KeyError) as e:
+        return {"k": "Malformed", "cls": type(x).__name__, "err": "%s: %s" % (type(e).__name__, str(e)[:80])}
+
+
+def _observe(x):
     if x is None:
         return {"k": "None"}
     if isinstance(x, bool):
